@@ -25,7 +25,7 @@ THEOREMS = ["SleapVerif.C05." + t for t in [
     "paf_kept_partial", "paf_border_strip_counterexample",
     "paf_additive", "paf_single", "paf_empty", "paf_layout", "paf_shape",
     "paf_weight_antitone_capstone", "paf_output_on_segment", "paf_output_additive",
-    "paf_passes_independent",
+    "paf_passes_independent", "paf_stream_independent",
 ]]
 
 EPS32 = 2.0 ** -23
@@ -179,6 +179,20 @@ def gen_case(rng, kind=None, pin=None, modes=None):
         case["extra_sample"] = [gen_animal(rng, H, W, stride, n_nodes, "inside") for _ in range(n_inst)]
     if kind in ("dp", "dp_noflat") and rng.random() < 0.8:
         case["history"] = {"passes": rng.choice([2, 2, 3]), "interleave": rng.random() < 0.35}
+    if kind in ("dp", "dp_noflat") and "H" not in pin and rng.random() < 0.85:
+        # a stream of 2-4 examples with DIFFERENT image sizes through one generator object
+        def ex_of(scale):
+            h2 = max(1, int(round(H * scale)) + rng.choice([0, 0, 1, stride]))
+            w2 = max(1, int(round(W * scale)) + rng.choice([0, 0, 1, stride]))
+            if (h2, w2) == (H, W):
+                w2 += stride
+            return {"H": h2, "W": w2,
+                    "animals": [gen_animal(rng, h2, w2, stride, n_nodes, rng.choice(["inside", "integer", "partly"]))
+                                for _ in range(n_inst)]}
+        k = rng.choice([1, 1, 2, 3])
+        others = [ex_of(rng.choice([0.4, 0.5, 0.75, 1.5, 2.0, 2.5])) for _ in range(k)]
+        cut = rng.randrange(0, k + 1)
+        case["stream"] = {"before": others[:cut], "after": others[cut:]}
     if kind in OUT_KINDS and case["edges"] and rng.random() < 0.5:
         case["float_edge_inds"] = True       # production call style: torch.Tensor(list) -> float32 indices
     return case
@@ -280,7 +294,16 @@ def run_impl_raw(case, animals=None):
             # second started while the first is suspended; every pass must be bit-identical to the first (which is the
             # one compared with the stateless model / the oracle) and the public attributes must stay unchanged
             ex = {"image": torch.zeros((1, 1, H, W)), "instances": instances[:1]}
-            r0 = call(lambda: em.PartAffinityFieldsGenerator([ex], **kw, edge_inds=edge_inds, flatten_channels=flat))
+            # a STREAM: the observed example travels with 1-3 other examples of DIFFERENT image sizes through the
+            # same generator object (before and/or after it); each example must get the answer it gets alone
+            stream = (case.get("stream") if animals_given is None else None) or {"before": [], "after": []}
+
+            def other(o):
+                return {"image": torch.zeros((1, 1, o["H"], o["W"])),
+                        "instances": torch.tensor(nan_arr(o["animals"], (1, len(o["animals"]), N, 2)), dtype=torch.float32)}
+            exs = [other(o) for o in stream["before"]] + [ex] + [other(o) for o in stream["after"]]
+            pos = len(stream["before"])
+            r0 = call(lambda: em.PartAffinityFieldsGenerator(exs, **kw, edge_inds=edge_inds, flatten_channels=flat))
             if r0[0] == "raise":
                 return r0
             dp = r0[1]
@@ -300,11 +323,14 @@ def run_impl_raw(case, animals=None):
                 start = 0
                 if hist.get("interleave") and hist["passes"] >= 2:
                     it1 = iter(dp)
-                    outs.append(("pass 1 (suspended after its example)", next(it1)["part_affinity_fields"].clone()))
-                    outs.append(("pass 2 (started while pass 1 was suspended)", list(iter(dp))[0]["part_affinity_fields"].clone()))
+                    first = next(it1)["part_affinity_fields"].clone()
+                    if pos == 0:
+                        outs.append(("pass 1 (suspended after its first example)", first))
+                    outs.append(("pass 2 (started while pass 1 was suspended)",
+                                 [e["part_affinity_fields"].clone() for e in iter(dp)][pos]))
                     start = 2
                 for n in range(start, hist["passes"]):
-                    outs.append((f"pass {n + 1}", list(iter(dp))[0]["part_affinity_fields"].clone()))
+                    outs.append((f"pass {n + 1}", [e["part_affinity_fields"].clone() for e in iter(dp)][pos]))
                     if not attrs_same(a0, attrs()):
                         return ("state", f"after pass {n + 1}", outs)
                 return ("ok", None, outs)
@@ -321,6 +347,15 @@ def run_impl_raw(case, animals=None):
             if status == "state" or not attrs_same(a0, attrs()):
                 return ("raise", "StateMutated", f"public attributes of the generator object changed {where_ or ''}: "
                         f"{ {k: (a0[k], attrs()[k]) for k in a0 if not attrs_same({k: a0[k]}, {k: attrs()[k]})} }")
+            # the DataPipe must give, for this example, exactly what generate_pafs gives on it alone
+            if animals_given is None and not case.get("defaults"):
+                rg = call(em.generate_pafs, instances[:1], (H, W), **kw, edge_inds=edge_inds, flatten_channels=flat)
+                if rg[0] == "ok" and not same(rg[1], outs[0][1]):
+                    where_s = f"example {pos + 1} of {len(exs)} in the stream (sizes " + \
+                        ", ".join(f"{e['image'].shape[2]}x{e['image'].shape[3]}" for e in exs) + ")"
+                    return ("raise", "StreamDependent",
+                            f"PartAffinityFieldsGenerator output for {where_s} has shape {tuple(outs[0][1].shape)} and differs from "
+                            f"generate_pafs on that example alone (shape {tuple(rg[1].shape)})")
             r = ("ok", outs[0][1])
         else:
             r = call(em.generate_pafs, instances, (H, W), **kw, edge_inds=edge_inds, flatten_channels=flat)
@@ -548,7 +583,7 @@ def impl_and_oracle(case):
     must not be modified by a later call)."""
     r = run_impl_raw(case)
     if r[0] == "raise":
-        if r[1] in ("HistoryDependent", "StateMutated"):
+        if r[1] in ("HistoryDependent", "StateMutated", "StreamDependent"):
             return r, [(r[2], [])], []
         return r, [(f"implementation raised {r[1]}: {r[2]}", [])], []
     raw, snap = r[1], r[1].clone()
@@ -571,7 +606,9 @@ def unsigned(fails):
 def case_size(case):
     pts = [p for a in case["animals"] for p in a]
     hh = case.get("history") or {}
-    return (hh.get("passes", 1) + (1 if hh.get("interleave") else 0), len(case["animals"]), len(case["edges"]), case["H"] + case["W"], case["stride"],
+    st = case.get("stream") or {"before": [], "after": []}
+    return (len(st["before"]) + len(st["after"]), hh.get("passes", 1) + (1 if hh.get("interleave") else 0),
+            len(case["animals"]), len(case["edges"]), case["H"] + case["W"], case["stride"],
             0 if case["sigma"] == 1.0 else 1, sum(1 for p in pts for v in p if v is not None and v != round(v)))
 
 
@@ -588,6 +625,10 @@ def shrink(case):
     while changed:
         changed = False
         cands = []
+        if cur.get("stream"):
+            for side in ("before", "after"):
+                for k in range(len(cur["stream"][side])):
+                    c = copy.deepcopy(cur); del c["stream"][side][k]; cands.append(c)
         if cur.get("history"):
             if cur["history"].get("interleave"):
                 c = copy.deepcopy(cur); c["history"]["interleave"] = False; cands.append(c)
@@ -616,6 +657,23 @@ def shrink(case):
 
 
 # ------------------------------------------------------------------ main
+def stream_rotations(case):
+    """The same stream observed at each of its other positions (every example of a stream is compared
+    with the model's answer for that example alone)."""
+    st = case.get("stream")
+    if not st:
+        return []
+    seq = st["before"] + [{"H": case["H"], "W": case["W"], "animals": case["animals"]}] + st["after"]
+    out = []
+    for i, o in enumerate(seq):
+        if i == len(st["before"]):
+            continue
+        c = {k: v for k, v in case.items() if k not in ("stream", "H", "W", "animals", "extra_sample")}
+        c.update(H=o["H"], W=o["W"], animals=o["animals"], stream={"before": seq[:i], "after": seq[i + 1:]})
+        out.append(copy.deepcopy(c))
+    return out
+
+
 def tags_of(case):
     if case["kind"] == "dist":
         return ["dist"]
@@ -626,6 +684,13 @@ def tags_of(case):
         t.append("large_frame")
     if case.get("float_edge_inds"):
         t.append("float32_edge_inds")
+    if case.get("stream"):
+        st = case["stream"]
+        t.append(f"dp_stream_{1 + len(st['before']) + len(st['after'])}_examples")
+        if any(o["H"] * o["W"] < case["H"] * case["W"] for o in st["before"]):
+            t.append("dp_stream_small_then_large")
+        if any(o["H"] * o["W"] > case["H"] * case["W"] for o in st["before"]):
+            t.append("dp_stream_large_then_small")
     if case.get("history"):
         t.append(f"dp_history_{case['history']['passes']}_passes" + ("_interleaved" if case["history"].get("interleave") else ""))
     if case["sigma"] not in (0.5, 1.0, 1.5, 2.5, 5.0):
@@ -758,6 +823,22 @@ def main(chk: Check):
          "history": {"passes": 3, "interleave": False}, "float_edge_inds": True, "animals": [[[1.0, 1.0], [5.0, 1.0]], [[5.0, 5.0], [1.0, 5.0]]]},
         {"kind": "pafs", "H": 8, "W": 8, "stride": 2, "sigma": 1.0, "n_nodes": 2, "edges": [], "animals": [[[1.0, 1.0], [5.0, 1.0]]]},
         {"kind": "pafs", "H": 8, "W": 8, "stride": 2, "sigma": 1.0, "n_nodes": 2, "edges": [[0, 1]], "animals": []},
+        # streams of different image sizes through one PartAffinityFieldsGenerator: small then large with the animal beyond
+        # the small frame's extent, and large then small (each rotation observes another element of the same stream)
+        {"kind": "dp", "H": 32, "W": 32, "stride": 4, "sigma": 1.5, "n_nodes": 2, "edges": [[0, 1]],
+         "animals": [[[20.0, 22.0], [27.0, 12.0]]],
+         "stream": {"before": [{"H": 16, "W": 16, "animals": [[[3.0, 4.0], [9.0, 9.0]]]}], "after": []}},
+        {"kind": "dp_noflat", "H": 12, "W": 8, "stride": 2, "sigma": 1.0, "n_nodes": 2, "edges": [[0, 1]],
+         "history": {"passes": 2, "interleave": False}, "animals": [[[2.0, 3.0], [5.0, 9.0]]],
+         "stream": {"before": [{"H": 24, "W": 40, "animals": [[[30.0, 20.0], [12.0, 5.0]]]}],
+                    "after": [{"H": 9, "W": 21, "animals": [[[15.0, 4.0], [3.0, 2.0]]]}]}},
+        # long sides (> 4096 cells of a full-resolution axis), an animal beyond x = 4096 / y = 4096
+        {"kind": "pafs", "H": 8, "W": 4608, "stride": 4, "sigma": 2.5, "n_nodes": 2, "edges": [[0, 1]], "large": True,
+         "animals": [[[4200.0, 4.0], [4400.0, 4.0]], [[100.0, 2.0], [300.0, 6.0]]]},
+        {"kind": "dp", "H": 5120, "W": 8, "stride": 2, "sigma": 1.5, "n_nodes": 2, "edges": [[0, 1]], "large": True,
+         "animals": [[[4.0, 4500.0], [4.0, 4700.5]]]},
+        {"kind": "mpafs", "H": 4, "W": 4400, "stride": 1, "sigma": 1.0, "n_nodes": 2, "edges": [[0, 1]], "large": True,
+         "animals": [[[4300.0, 2.0], [4350.0, 1.0]]]},
         # real-data regime: 2048 px frame, long edge in the far corner, grid point on the segment
         {"kind": "pafs", "H": 2048, "W": 2048, "stride": 64, "sigma": 15.0, "n_nodes": 2, "edges": [[0, 1]], "large": True,
          "float_edge_inds": True, "animals": [[[1920.0, 1856.0], [1400.5, 1310.25]], [[64.0, 64.0], [640.0, 64.0]]]},
@@ -769,6 +850,7 @@ def main(chk: Check):
         cases.append(gen_case(rng, KINDS[k % len(KINDS)]))
     for k in range(chk.n(40, 400)):
         cases.append(gen_large_case(rng, ["pafs", "dp", "pafs_noflat", "mpafs"][k % 4]))
+    cases += [c2 for c in list(cases) for c2 in stream_rotations(c)]
     # ---- the regions the _partial theorems exclude: sampled on purpose (search, not proof coverage)
     n_ex = chk.n(60, 600)
     for k in range(n_ex):
@@ -833,7 +915,8 @@ if __name__ == "__main__":
         ],
         rule="entry points distance_to_edge, make_pafs, make_multi_pafs, generate_pafs (flattened / not), "
              "PartAffinityFieldsGenerator (flattened / not; as HISTORIES over one generator object: 1-3 passes with a fresh iter() each, "
-             "35% with pass 2 started while pass 1 is suspended; every pass must be bit-identical to the first, which is compared with the "
+             "35% with pass 2 started while pass 1 is suspended; 85% as STREAMS of 2-4 examples with different image sizes (x0.4 .. x2.5, both "
+             "orders) through the same object, every example observed in turn and required to equal generate_pafs on it alone; every pass must be bit-identical to the first, which is compared with the "
              "stateless model, and sigma/output_stride/edge_inds/flatten_channels must stay unchanged); edge_inds as int64 tensor or, as production does, torch.Tensor(list) "
              "(float32); 0-4 animals x 1-5 nodes on the k/16 lattice in modes inside / integer / wholly outside / partly outside / "
              "last-stride strip and x=0,y=0 lines / sub-pixel edges / coincident nodes, NaN patterns (node, one coordinate, whole "
